@@ -9,7 +9,7 @@ VERIF = os.path.dirname(os.path.dirname(os.path.abspath(__file__)))
 SOURCE_ATOMS = {
     'C05': '(whether `disable_recording()` discards the recording in flight - fix F15)',
     'C10': '(how `limit` is tested in the in-memory and file based cassettes; how the file cassette cuts the id out of a listed file name - fix F14; the S3 window operators)',
-    'C14': '(the operator table of `_operator_filter`)',
+    'C14': '(the operator table of `_operator_filter`, whether its comparisons are guarded by `except TypeError` and whether the pattern branch tests `isinstance(recorded_value, str)` first - fix F8)',
     'C15': '(the S3 key layout constants)',
     'C16': '(the two comparison operators of the last-modified window, the day-folder count of `_get_id_prefixes`)',
     'C17': '(`sampling_rate >= 1` and `sample_value <= sampling_rate` in `_should_sample_active_recording`; `ratio >= 1` and `random() <= ratio` in the S3 cassette\'s `_should_sample`)',
